@@ -140,8 +140,14 @@ class OperationGroup(ContextMixin, ContentMixin):
         signature_size = 96 if source.startswith('tz4') else 64
         constants = self.shell.head.context.constants()
 
+        counter_offset = 0
         if counter is not None:
             self.context.set_counter(counter - 1)  # which is supposedly the current state (head)
+        else:
+            # start from the state of the node whatever was filled before: account counter + pending operations
+            self.context.set_counter(None)
+            if kwargs.get('counter_offset', True):
+                counter_offset = self.context.get_counter_offset()
 
         if gas_limit is None:
             hard_gas_limit_per_content = int(constants['hard_gas_limit_per_operation']) // len(self.contents)
@@ -157,7 +163,7 @@ class OperationGroup(ContextMixin, ContentMixin):
             'pkh': source,
             'source': source,
             'delegate': source,  # self registration
-            'counter': lambda i, x: str(self.context.get_counter()),
+            'counter': lambda i, x: str(self.context.get_counter() + counter_offset),
             'secret': lambda i, x: self.key.activation_code,
             'period': lambda i, x: str(self.shell.head.voting_period()),
             'public_key': lambda i, x: self.key.public_key(),
@@ -274,7 +280,9 @@ class OperationGroup(ContextMixin, ContentMixin):
             logger.warning('`branch_offset` argument is deprecated, use `ttl` instead')
             ttl = MAX_OPERATIONS_TTL - kwargs['branch_offset']
 
-        opg = self.fill(counter=counter, ttl=ttl)
+        # simulate at the account's counter, pending operations are taken into account afterwards
+        opg = self.fill(counter=counter, ttl=ttl, counter_offset=False)
+        counter_unfilled = [content.get('counter') in ['', '0'] for content in self.contents]
         opg_with_metadata = opg.run()
         if not OperationResult.is_applied(opg_with_metadata):
             raise RpcError.from_errors(OperationResult.errors(opg_with_metadata))
@@ -286,7 +294,7 @@ class OperationGroup(ContextMixin, ContentMixin):
         counter_offset = self.context.get_counter_offset()
         opg.contents.clear()
 
-        for content in opg_with_metadata['contents']:
+        for idx, content in enumerate(opg_with_metadata['contents']):
             if validation_passes[content['kind']] == 3:
                 if gas_limit is not None:
                     gas_limit_new = gas_limit // num_contents
@@ -306,7 +314,7 @@ class OperationGroup(ContextMixin, ContentMixin):
 
                 current_counter = int(content['counter'])
                 content.update(
-                    counter=str(current_counter + counter_offset),
+                    counter=str(current_counter + (counter_offset if counter_unfilled[idx] else 0)),
                     gas_limit=str(gas_limit_new),
                     storage_limit=str(storage_limit_new),
                     fee='0',
